@@ -699,6 +699,50 @@ impl rustix::sim::Hooks for HooksImpl {
     }
 }
 
+/// Drain events until nothing is left: every scheduled actor event has happened, the tty has no
+/// unread input and (unless the tty failed or the peer is stalled) the write queue is empty.
+/// Returns true when the boundary is clean (queue drained, nothing pending).
+fn drain_to_boundary(app: &mut App, kernel: &K) -> bool {
+    let mut rounds = 0;
+    loop {
+        rounds += 1;
+        if rounds > 3000 {
+            return false;
+        }
+        // let all scheduled actor events happen first (wait for them with a finite timeout)
+        let timeout = {
+            let k = kernel.borrow();
+            let next = k.next_event_time();
+            match next {
+                Some(t) => Some(Duration::from_nanos(t.saturating_sub(k.now) + 10 * MS)),
+                None => Some(Duration::from_millis(50)),
+            }
+        };
+        match app.poll(timeout) {
+            Polled::Event(None) => {
+                let k = kernel.borrow();
+                let idle = k.events.is_empty() && k.in_queue.is_empty();
+                let queue_empty = app.term.as_ref().unwrap().frames_pending() == 0;
+                if idle && (queue_empty || k.eio || k.hup || k.now < k.stalled_until) {
+                    return queue_empty && !k.eio && !k.hup;
+                }
+                if idle && !queue_empty && k.out_buf.is_empty() && k.now >= k.stalled_until {
+                    // nothing scheduled, tty writable, yet output is stuck in the queue
+                    return false;
+                }
+            }
+            Polled::Event(Some(_)) => {}
+            Polled::Quit => {
+                // application would normally stop here; keep draining
+                if app.quit_seen > 8 {
+                    return false;
+                }
+            }
+            Polled::Failed(_) | Polled::Blocked => return false,
+        }
+    }
+}
+
 /// Call into the terminal; a `select` that can never return unwinds with `SimBlocked`
 fn guarded<R>(f: impl FnOnce() -> R) -> Result<R, ()> {
     match catch_unwind(AssertUnwindSafe(f)) {
@@ -833,6 +877,23 @@ struct App {
     blocked: bool,
     /// steps counter at the time of the last Wake / Resize event delivery
     last_wake_event_step: u64,
+    /// counters at the last clean boundary (start of the current epoch)
+    epoch: Epoch,
+    epochs: u64,
+    /// a handler passed to Terminal::run returned an error: the application leaves
+    handler_error: bool,
+}
+
+#[derive(Default, Clone, Copy)]
+struct Epoch {
+    wakes_requested: u64,
+    wakes_seen: u64,
+    winch_raised: u64,
+    resizes_seen: u64,
+    quit_raised: u64,
+    quit_seen: u64,
+    typed: usize,
+    keys: usize,
 }
 
 impl App {
@@ -889,6 +950,62 @@ impl App {
             Polled::Blocked => "poll:blocked",
         });
         polled
+    }
+
+    /// A clean boundary has been reached (nothing scheduled, nothing queued anywhere): whatever
+    /// was requested since the previous clean boundary must have been delivered by now. Since
+    /// the epoch started with empty queues, every event seen in it belongs to it.
+    fn epoch_check(&mut self, kernel: &K, which: &str) -> WorldResult {
+        let k = kernel.borrow();
+        let now = Epoch {
+            wakes_requested: k.wakes_requested,
+            wakes_seen: self.wakes_seen,
+            winch_raised: k.winch_raised,
+            resizes_seen: self.resizes_seen,
+            quit_raised: k.quit_raised,
+            quit_seen: self.quit_seen,
+            typed: k.typed.len(),
+            keys: self.keys.len(),
+        };
+        let start = self.epoch;
+        self.epoch = now;
+        self.epochs += 1;
+        if now.wakes_requested > start.wakes_requested && now.wakes_seen == start.wakes_seen {
+            return Err(violation(
+                "C17",
+                "C17.lost-wakeup",
+                "wake-request-without-wake-event",
+                format!("{} wake requests between two clean boundaries ({which}) but no Wake event was delivered", now.wakes_requested - start.wakes_requested),
+            ));
+        }
+        if now.quit_raised > start.quit_raised && now.quit_seen == start.quit_seen {
+            return Err(violation(
+                "C17",
+                "C17.signal",
+                "termination-signal-not-reported",
+                format!("{} termination signals raised between two clean boundaries ({which}), poll never returned Error::Quit", now.quit_raised - start.quit_raised),
+            ));
+        }
+        let ioctl_size = k.winsize.ws_xpixel != 0 && k.winsize.ws_ypixel != 0;
+        if ioctl_size && now.winch_raised > start.winch_raised && now.resizes_seen == start.resizes_seen {
+            return Err(violation(
+                "C17",
+                "C17.signal",
+                "sigwinch-without-resize",
+                format!("{} SIGWINCH raised between two clean boundaries ({which}), no Resize event delivered", now.winch_raised - start.winch_raised),
+            ));
+        }
+        let typed: Vec<char> = k.typed[start.typed..].iter().map(|b| *b as char).collect();
+        let keys: Vec<char> = self.keys[start.keys..].to_vec();
+        if typed != keys {
+            return Err(violation(
+                "C17",
+                "C17.input-order",
+                if keys.len() < typed.len() { "typed-input-lost" } else { "typed-input-reordered-or-duplicated" },
+                format!("between two clean boundaries ({which}) the user typed {:?} but key events were {:?}", typed.iter().collect::<String>(), keys.iter().collect::<String>()),
+            ));
+        }
+        Ok(())
     }
 
     /// drop call: remember how many raw bytes the tty had accepted at that moment
@@ -1015,6 +1132,9 @@ fn session(ctx: &Ctx, kernel: &K) -> WorldResult {
         failed: false,
         blocked: false,
         last_wake_event_step: 0,
+        epoch: Epoch::default(),
+        epochs: 0,
+        handler_error: false,
     };
 
     // ---- settle: drain whatever construction left behind so that history starts from a clean queue
@@ -1054,7 +1174,7 @@ fn session(ctx: &Ctx, kernel: &K) -> WorldResult {
         if app.failed || app.blocked {
             break;
         }
-        let op = kernel.borrow_mut().src.draw(14);
+        let op = kernel.borrow_mut().src.draw(17);
         match op {
             0 | 1 => {
                 // write payload
@@ -1203,11 +1323,129 @@ fn session(ctx: &Ctx, kernel: &K) -> WorldResult {
                     _ => k.schedule(delay, Ev::Eio),
                 }
             }
+            13 => {
+                // application synchronises: drain everything, a new epoch starts
+                let clean = drain_to_boundary(&mut app, kernel);
+                kernel.borrow_mut().src.sig(0xA600 + clean as u64);
+                if clean {
+                    kernel.borrow_mut().src.probe("mid-session-clean-boundary");
+                    if prop == "C17" {
+                        app.epoch_check(kernel, "mid-session")?;
+                    }
+                }
+            }
+            14 => {
+                // cursor position query: only sensible with a peer that answers DA1
+                let answers = {
+                    let k = kernel.borrow();
+                    k.person.da1 && !k.eio && !k.hup
+                };
+                if answers {
+                    let k = kernel.clone();
+                    k.borrow_mut().in_poll = true;
+                    // position() = execute(CursorGet) + execute(DeviceAttrs) + poll(None) until DA1
+                    let mut bytes = Vec::new();
+                    let _ = app.encoder.encode(&mut bytes, TerminalCommand::CursorGet);
+                    let _ = app.encoder.encode(&mut bytes, TerminalCommand::DeviceAttrs);
+                    app.history.on_write_bytes(bytes.len());
+                    app.expected.extend_from_slice(&bytes);
+                    app.history.on_flush();
+                    let term = app.term.as_mut().unwrap();
+                    let res = guarded(|| term.position());
+                    k.borrow_mut().in_poll = false;
+                    let mut kk = k.borrow_mut();
+                    kk.src.probe("position-query");
+                    kk.src.sig(0xA700 + res.is_ok() as u64);
+                    let now = kk.now;
+                    match res {
+                        Err(()) => {
+                            app.blocked = true;
+                            kk.src.log(|| format!("t={}us app: position() blocked", now / US));
+                        }
+                        Ok(Err(Error::Quit)) => {
+                            app.quit_seen += 1;
+                            kk.src.log(|| format!("t={}us app: position() -> Quit", now / US));
+                        }
+                        Ok(Err(err)) => {
+                            app.failed = true;
+                            kk.src.log(|| format!("t={}us app: position() failed {:?}", now / US, err));
+                        }
+                        Ok(Ok(pos)) => kk.src.log(|| format!("t={}us app: position() -> {:?}", now / US, pos)),
+                    }
+                }
+            }
+            15 => {
+                // Terminal::run with an event handler that gives up after a few events, either by
+                // quitting or by returning an error (an exit path of the session)
+                let (budget, fail) = {
+                    let mut k = kernel.borrow_mut();
+                    (1 + k.src.draw(4) as usize, k.src.chance(1, 2))
+                };
+                let k = kernel.clone();
+                k.borrow_mut().in_poll = true;
+                app.history.on_flush();
+                let mut seen: Vec<Option<TerminalEvent>> = Vec::new();
+                let term = app.term.as_mut().unwrap();
+                let res = guarded(|| {
+                    term.run(Some(Duration::from_millis(2)), |_term, event| -> Result<surf_n_term::TerminalAction<u32>, Error> {
+                        seen.push(event);
+                        if seen.len() >= budget {
+                            if fail {
+                                return Err(Error::Other("handler gave up".into()));
+                            }
+                            return Ok(surf_n_term::TerminalAction::Quit(1));
+                        }
+                        Ok(surf_n_term::TerminalAction::Sleep(Duration::from_millis(3)))
+                    })
+                });
+                k.borrow_mut().in_poll = false;
+                // every poll inside run is a frame delimiter as well
+                for _ in 0..seen.len() {
+                    app.history.on_flush();
+                }
+                for event in seen.iter() {
+                    match event {
+                        Some(TerminalEvent::Key(key)) => {
+                            if let KeyName::Char(c) = key.name {
+                                if key.mode.is_empty() && c.is_ascii() && TYPED.contains(&(c as u8)) {
+                                    app.keys.push(c);
+                                }
+                            }
+                        }
+                        Some(TerminalEvent::Wake) => {
+                            app.wakes_seen += 1;
+                            app.last_wake_event_step = k.borrow().steps;
+                        }
+                        Some(TerminalEvent::Resize(_)) => app.resizes_seen += 1,
+                        _ => {}
+                    }
+                }
+                let mut kk = k.borrow_mut();
+                kk.src.probe("terminal-run-with-handler");
+                kk.src.sig(0xA800 + fail as u64);
+                let now = kk.now;
+                match res {
+                    Err(()) => app.blocked = true,
+                    Ok(Err(Error::Quit)) => app.quit_seen += 1,
+                    Ok(Err(Error::Other(_))) => {
+                        // the handler's error: the session ends here
+                        kk.src.probe("handler-returned-error");
+                        kk.src.log(|| format!("t={}us app: run() handler returned an error after {} events", now / US, seen.len()));
+                        app.handler_error = true;
+                    }
+                    Ok(Err(_)) => app.failed = true,
+                    Ok(Ok(_)) => {}
+                }
+                kk.src.log(|| format!("t={}us app: run() saw {:?}", now / US, seen));
+            }
             _ => {
                 let pending = app.term.as_ref().unwrap().frames_pending();
                 let mut k = kernel.borrow_mut();
                 k.src.sig(0xA500 + pending.min(3) as u64);
             }
+        }
+        if app.handler_error {
+            break;
         }
         let _ = owed_wake;
     }
@@ -1216,7 +1454,7 @@ fn session(ctx: &Ctx, kernel: &K) -> WorldResult {
     let mut boundary_clean = false;
     // drop point: in a fraction of runs the terminal is released right here, in the middle of
     // whatever is going on (events still scheduled fire during dispose)
-    let abrupt = kernel.borrow_mut().src.chance(1, 3);
+    let abrupt = kernel.borrow_mut().src.chance(1, 3) || app.handler_error;
     if abrupt {
         let mut k = kernel.borrow_mut();
         k.src.probe("abrupt-drop");
@@ -1228,44 +1466,9 @@ fn session(ctx: &Ctx, kernel: &K) -> WorldResult {
         }
     }
     if clean_start && !app.failed && !app.blocked && !abrupt {
-        let mut rounds = 0;
-        loop {
-            rounds += 1;
-            if rounds > 3000 {
-                break;
-            }
-            // let all scheduled actor events happen first (wait for them with a finite timeout)
-            let timeout = {
-                let k = kernel.borrow();
-                let next = k.next_event_time();
-                match next {
-                    Some(t) => Some(Duration::from_nanos(t.saturating_sub(k.now) + 10 * MS)),
-                    None => Some(Duration::from_millis(50)),
-                }
-            };
-            match app.poll(timeout) {
-                Polled::Event(None) => {
-                    let k = kernel.borrow();
-                    let idle = k.events.is_empty() && k.in_queue.is_empty();
-                    let queue_empty = app.term.as_ref().unwrap().frames_pending() == 0;
-                    if idle && (queue_empty || k.eio || k.hup || k.now < k.stalled_until) {
-                        boundary_clean = queue_empty;
-                        break;
-                    }
-                    if idle && !queue_empty && k.out_buf.is_empty() && k.now >= k.stalled_until {
-                        // nothing scheduled, tty writable, yet output is stuck in the queue
-                        break;
-                    }
-                }
-                Polled::Event(Some(_)) => {}
-                Polled::Quit => {
-                    // application would normally stop here; keep draining
-                    if app.quit_seen > 8 {
-                        break;
-                    }
-                }
-                Polled::Failed(_) | Polled::Blocked => break,
-            }
+        boundary_clean = drain_to_boundary(&mut app, kernel);
+        if boundary_clean && prop == "C17" {
+            app.epoch_check(kernel, "final")?;
         }
     }
 
@@ -1291,6 +1494,27 @@ fn session(ctx: &Ctx, kernel: &K) -> WorldResult {
         if waker_byte || k.tty_readable() {
             let what = if k.tty_readable() { "tty input pending" } else { "waker or signal pipe readable" };
             return Err(violation("C17", "C17.lost-wakeup", "poll-blocked-with-input-pending", format!("poll blocked for ever in select although {what}")));
+        }
+        // nothing is readable any more, but was everything that had been requested handed out?
+        // (a poll that holds a Wake or a key in its queue and never returns has lost it)
+        let wake_owed = k.wakes_requested > 0 && k.last_wake_seq > app.last_wake_event_step;
+        let input_owed = k.typed.len() > app.keys.len() && !k.hup && !k.eio;
+        let output_stuck = app.term.as_ref().map(|t| t.frames_pending() > 0).unwrap_or(false) && !k.hup && !k.eio && k.out_buf.len() < k.out_cap;
+        if wake_owed || input_owed || output_stuck {
+            return Err(violation(
+                "C17",
+                "C17.lost-wakeup",
+                "poll-blocked-with-event-owed",
+                format!(
+                    "a poll with infinite timeout blocked for ever although {} (wake requests {}, Wake events {}, typed {}, key events {}, frames pending {:?})",
+                    if wake_owed { "a wake request was not answered with a Wake event" } else if input_owed { "typed input was not delivered" } else { "output is queued and the tty is writable" },
+                    k.wakes_requested,
+                    app.wakes_seen,
+                    k.typed.len(),
+                    app.keys.len(),
+                    app.term.as_ref().map(|t| t.frames_pending())
+                ),
+            ));
         }
     }
     if prop == "C17" && boundary_clean && healthy {
